@@ -57,11 +57,11 @@ def main():
     all_demos = dict(DEMOS)
     all_demos.update(round2_demos())
     for key, demo_cmd in all_demos.items():
-        round_arg = len(only) == 1 and re.fullmatch(r"round\d", only[0]) is not None
+        round_arg = len(only) == 1 and re.fullmatch(r"round\d+", only[0]) is not None
         if only and key not in only and not (round_arg and key.startswith("r" + only[0][5:] + "-")): continue
-        if re.match(r"r\d-", key):
+        if re.match(r"r\d+-", key):
             rnd, pid, var = key.split("-")
-            src = f"/tmp/wt{rnd[1]}-{pid}/seeded/{var}"
+            src = f"/tmp/wt{rnd[1:]}-{pid}/seeded/{var}"
         else:
             pid, var = key.split("-")
             src = f"/tmp/wt-{pid}/seeded/{var}"
